@@ -74,9 +74,11 @@ bool WARCReader::Read(std::string &out) {
       UTIL_THROW_IF2(seen_content_length, "Two Content-Length headers?");
       seen_content_length = true;
       char *end;
-      length = std::strtoll(line.data() + kContentLengthLength, &end, 10);
+      const long long parsed = std::strtoll(line.data() + kContentLengthLength, &end, 10);
       // TODO: tolerate whitespace?
       UTIL_THROW_IF2(end != line.data() + line.size(), "Content-Length parse error in `" << line << '\'');
+      UTIL_THROW_IF2(parsed < 0, "Negative Content-Length in `" << line << '\'');
+      length = parsed;
     }
   }
   UTIL_THROW_IF2(!seen_content_length, "No Content-Length: header in " << out);
